@@ -543,8 +543,8 @@ def _shards_translate(tier):
     sh.append({"m": 0})
     for s in range(4):
         sh.append({"m": 1, "starts": s})
-    for s in range(4):
-        for f in range(4):
+    for s in NONEMPTY:
+        for f in NONEMPTY:
             for g in groups_by_min(32, 2, 125):
                 sh.append({"m": 2, "starts": s, "finals": f, "t0_in": g})
     for (s, f) in MASK_CLASSES:
@@ -583,10 +583,9 @@ def _shards_star(tier):
     sh.append({"m": 0})
     for s in range(4):
         sh.append({"m": 1, "starts": s})
-    for s in NONEMPTY:
-        for f in NONEMPTY:
-            for g in groups_by_min(32, 2, 125):
-                sh.append({"m": 2, "starts": s, "finals": f, "t0_in": g})
+    for (s, f) in MASK_CLASSES:
+        for g in groups_by_min(32, 2, 125):
+            sh.append({"m": 2, "starts": s, "finals": f, "t0_in": g})
     for (s, f) in MASK_CLASSES:
         for g in groups_by_min(16, 3, 120):
             sh.append({"m": 3, "starts": s, "finals": f, "nslots": 16, "t0_in": g})
@@ -597,18 +596,19 @@ M_SIMPLE = {"sa": 1, "fa": 2, "sb": 1, "fb": 2}
 M_MIX = {"sa": 1, "fa": 3, "sb": 3, "fb": 2}       # A: two final states, B: two start states
 M_ALL = {"sa": 3, "fa": 3, "sb": 3, "fb": 3}
 A_ARC = 3        # code of q0 -a/[]-> q1 ; the codes above it are the moves with an output and all moves from q1
-LO8, HI8 = [0, 1, 2, 3, 4, 5, 6, 7], [8, 9, 10, 11, 12, 13, 14, 15]
+QUARTERS = ([0, 1, 2, 3], [4, 5, 6, 7], [8, 9, 10, 11], [12, 13, 14, 15])
 
 
 def _shards_pair(tier):
     sh = []
     if tier == "quick":
-        for g in ([0, 1, 2, 3], [4, 5, 6, 7], [8, 9, 10, 11], [12, 13, 14, 15]):
+        for g in QUARTERS:
             sh.append(dict(M_SIMPLE, ma=1, mb=1, lab=0, nslots=16, a0_in=g))
-        for g in (LO8, HI8):
+        for g in QUARTERS:
             sh.append(dict(M_MIX, ma=2, a0=A_ARC, mb=1, lab=0, nslots=16, b0_in=g))
             sh.append(dict(M_MIX, ma=1, mb=2, b0=A_ARC, lab=0, nslots=16, a0_in=g))
-        sh.append(dict(M_ALL, ma=2, a0=A_ARC, mb=2, b0=A_ARC, lab=0, nslots=16, b1_in=[4, 5, 6, 7, 8, 9]))
+        for g in ([4, 5, 6], [7, 8, 9]):
+            sh.append(dict(M_ALL, ma=2, a0=A_ARC, mb=2, b0=A_ARC, lab=0, nslots=16, b1_in=g))
         for lab in (1, 2, 4):
             sh.append(dict(M_MIX, ma=2, a0=A_ARC, mb=1, lab=lab, nslots=16, b0_in=[3, 6, 11, 13]))
         sh.append(dict(M_SIMPLE, ma=1, mb=1, b0=A_ARC, lab=3, nslots=16))
@@ -619,22 +619,26 @@ def _shards_pair(tier):
     masks16 = [{"sa": sa, "fa": fa, "sb": sb, "fb": fb} for sa in (1, 3) for fa in (2, 3) for sb in (1, 3)
                for fb in (2, 3)]
     for mk in masks16:
-        sh.append(dict(mk, ma=1, mb=1, lab=0, nslots=16))
-        sh.append(dict(mk, ma=2, a0=A_ARC, mb=1, lab=0, nslots=16))
-        sh.append(dict(mk, ma=1, mb=2, b0=A_ARC, lab=0, nslots=16))
-        sh.append(dict(mk, ma=2, a0=A_ARC, mb=2, b0=A_ARC, lab=0, nslots=16))
+        for g in (QUARTERS[0] + QUARTERS[1], QUARTERS[2] + QUARTERS[3]):
+            sh.append(dict(mk, ma=1, mb=1, lab=0, nslots=16, a0_in=g))
+    for mk in (M_SIMPLE, M_MIX, M_ALL, {"sa": 3, "fa": 2, "sb": 1, "fb": 3}):
+        for g in QUARTERS:
+            sh.append(dict(mk, ma=2, a0=A_ARC, mb=1, lab=0, nslots=16, b0_in=g))
+            sh.append(dict(mk, ma=1, mb=2, b0=A_ARC, lab=0, nslots=16, a0_in=g))
+        for g in ([4, 5, 6, 7], [8, 9, 10, 11], [12, 13, 14, 15]):
+            sh.append(dict(mk, ma=2, a0=A_ARC, mb=2, b0=A_ARC, lab=0, nslots=16, b1_in=g))
     for lab in (1, 2, 4):
-        for mk in (M_SIMPLE, M_ALL, {"sa": 1, "fa": 3, "sb": 3, "fb": 2}):
-            sh.append(dict(mk, ma=1, mb=1, lab=lab, nslots=16))
+        for mk in (M_SIMPLE, M_MIX):
+            for g in (QUARTERS[0] + QUARTERS[1], QUARTERS[2] + QUARTERS[3]):
+                sh.append(dict(mk, ma=1, mb=1, lab=lab, nslots=16, a0_in=g))
             sh.append(dict(mk, ma=2, a0=A_ARC, mb=2, b0=A_ARC, lab=lab, nslots=16))
-    sh.append(dict(M_SIMPLE, ma=1, mb=1, lab=3, nslots=16))
+    sh.append(dict(M_SIMPLE, ma=1, mb=1, lab=3, nslots=16, b0_in=[3, 11]))
     # three output words per operand ([], [x], [x,x] / [], [y], [y,y]), one transition each
-    for mk in (M_SIMPLE, M_ALL):
-        for g in groups_by_min(24, 1, 6):
-            sh.append(dict(mk, ma=1, mb=1, lab=0, a0_in=g))
-    for sa in range(4):
-        sh.append({"ma": 0, "mb": 1, "lab": 0, "nslots": 16, "sa": sa})
-        sh.append({"ma": 1, "mb": 0, "lab": 0, "nslots": 16, "sb": sa})
+    for g in groups_by_min(24, 1, 4):
+        sh.append(dict(M_MIX, ma=1, mb=1, lab=0, a0_in=g))
+    for sa in range(4):     # an operand without transitions, every start/final mask of it
+        sh.append({"ma": 0, "mb": 1, "lab": 0, "nslots": 16, "sa": sa, "sb": 3, "fb": 3})
+        sh.append({"ma": 1, "mb": 0, "lab": 0, "nslots": 16, "sb": sa, "sa": 3, "fa": 3})
     sh.append({"ma": 0, "mb": 0, "lab": 0})
     return sh
 
@@ -680,7 +684,8 @@ CONDS = [
          {"quick": "EpsilonNFA with 2 states over {a} without epsilon self-loops (64 edge sets) x 5 mask classes; "
                    "NFA / DFA with 2 states over {a} (16 edge sets, valid ones) x 9 non-empty masks; words <=2 over {a,z}",
           "thorough": "all 256 epsilon-NFAs with 2 states over {a} x all 16 masks; all NFA / DFA x 16 masks"},
-         F_TOFST, "the automaton has an edge and accepts a word of length <=2"),
+         F_TOFST, "the automaton has an edge and accepts a word of length <=2",
+         shard_timeout={"quick": 900, "thorough": 3000}),
     Cond("C16", c16_union_concat, _shards_pair,
          {"quick": "A | B and A + B for 2-state operands over in {eps,a}, outputs A {[],[x]}, B {[],[y]}, both using "
                    "the state names q0,q1: 1 transition each (all 256 pairs) x masks {simple, all states start and "
@@ -688,19 +693,21 @@ CONDS = [
                    "name schemes {q,q0}/{q,q0}, {q0,q1}/{q1,q2}, ints {0,1}/{0,1}, disjoint on slices; empty "
                    "operands; relation of the extracted result on all words <=2 over {a,z}, library translate on "
                    "the result for [], [a], [a,a], [a,z]; " + VALID,
-          "thorough": "as quick with 16 start/final mask combinations (A starts {q0}|{q0,q1}, A finals {q1}|both, same "
-                      "for B) for <=2 transitions per operand (the 2-transition sets contain q0-a/[]->q1), 3 name "
-                      "schemes x 3 masks, 3 output words per operand for single transitions, empty operands with "
-                      "every mask; " + VALID},
-         F_OPS, "both operands have a transition and a non-empty relation on words <=2", assumptions=ASSUME),
+          "thorough": "1 transition each (all 256 pairs) x 16 start/final mask combinations (A starts {q0}|{q0,q1}, A "
+                      "finals {q1}|both, same for B); 2 transitions (q0-a/[]->q1 + any larger code) against 1 or 2 x 4 "
+                      "mask combinations; the 3 other string name schemes x 2 masks, int names on a slice; 3 output "
+                      "words per operand for single transitions; empty operands with every mask; " + VALID},
+         F_OPS, "both operands have a transition and a non-empty relation on words <=2", assumptions=ASSUME,
+         shard_timeout={"quick": 900, "thorough": 3000}),
     Cond("C16", c16_kleene_star, _shards_star,
          {"quick": "kleene_star of FST with 2 states, in {eps,a}: <=1 transition with outputs {[],[x],[x,y]} x 10 "
                    "start/final mask classes (incl. empty start or final set), all sets of 2 transitions with outputs "
                    "{[],[x]} x the 5 non-empty mask classes; star relation for inputs <=2 over {a,z} (outputs <=4 "
                    "symbols when the star relates one input to infinitely many outputs); " + VALID,
-          "thorough": "<=1 transition x all 16 masks and all sets of 2 transitions x all 9 non-empty masks with outputs "
+          "thorough": "<=1 transition x all 16 masks and all sets of 2 transitions x the 5 non-empty mask classes with outputs "
                       "{[],[x],[x,y],[y]}; all sets of 3 transitions with outputs {[],[x]} x 5 mask classes; " + VALID},
-         F_STAR, "the FST has a transition and its star relates more than the empty pair", assumptions=ASSUME),
+         F_STAR, "the FST has a transition and its star relates more than the empty pair", assumptions=ASSUME,
+         shard_timeout={"quick": 900, "thorough": 3000}),
     Cond("C16", c16_translate, _shards_translate,
          {"quick": "FST with 2 states, in {eps,a}, outputs {[],[x],[x,y]}: all sets of <=2 transitions (m=0: all 16 "
                    "start/final masks; m=1: all non-empty masks; m=2: the 5 classes of non-empty masks up to "
@@ -708,10 +715,10 @@ CONDS = [
                    "{q0-eps/[]->q1, q1-a/[]->q1} as their two smallest codes, all non-empty masks; "
                    "every input word of length <=2 over {a, z(unknown)}; " + VALID,
           "thorough": "FST with 2 states, in {eps,a}: all sets of <=2 transitions with outputs {[],[x],[x,y],[y]} x "
-                      "all 16 masks; all sets of 3 transitions with outputs {[],[x],[x,y]} x the 5 mask classes; "
+                      "all 16 masks (2 transitions: the 9 non-empty ones); all sets of 3 transitions with outputs {[],[x],[x,y]} x the 5 mask classes; "
                       "every input word of length <=2 over {a, z}; " + VALID},
          F_TRANSLATE, "the FST has a transition and relates some word of length <=2 to an output",
-         assumptions=ASSUME),
+         assumptions=ASSUME, shard_timeout={"quick": 900, "thorough": 3000}),
     Cond("C16", c16_translate3, _shards_translate3,
          {"thorough": "FST with 3 states, in {eps,a}, outputs {[],[x]}: all sets of 2 transitions x 5 start/final "
                       "masks; sets of 3 (4) transitions whose 2 (3) smallest are the eps chain q0->q1->q2 (the "
